@@ -16,6 +16,7 @@ from ..cfront import CNode, CUnit, strip, text
 from ..core import AnalysisError, Loc, Report, Source, norm
 from ..degree import INHOM, ZERO, DegreeInterp, Val, fmt
 from ..pyfront import ClassInfo, Program, body_without_docstring, param_names, self_attr
+from ..resolve import Resolver
 from ..selftest import Edit
 
 ID = "C03"
@@ -129,47 +130,125 @@ def check_degrees(prog: Program, src: Source, rep: Report) -> None:
     rep.expect_min("R3.1-displacement-degree", 5)
 
 
+def _eval_perm(fn: ast.FunctionDef, module_assigns: Dict[str, ast.AST], d: int):
+    """
+    Exhaustive evaluation of the axis-permutation helper for direction d on the symbolic vector (v0, v1, v2) -- a three-point
+    domain, a few subscripts and tuple displays: constants, module-level tables (lists / tuples of index tuples or of
+    itemgetter(...) objects), subscripts, tuple unpacking and calls of an itemgetter are interpreted, nothing else.
+    """
+    ps = param_names(fn, False)
+    if len(ps) != 2:
+        return None
+    env: Dict[str, object] = {ps[0]: ("v0", "v1", "v2"), ps[1]: d}
+
+    def ev(e: ast.AST):
+        if isinstance(e, ast.Constant):
+            return e.value
+        if isinstance(e, ast.Name):
+            if e.id in env:
+                return env[e.id]
+            if e.id in module_assigns:
+                return ev(module_assigns[e.id])
+            raise ValueError(e.id)
+        if isinstance(e, (ast.Tuple, ast.List)):
+            out = []
+            for x in e.elts:
+                if isinstance(x, ast.Starred):
+                    out.extend(ev(x.value))
+                else:
+                    out.append(ev(x))
+            return tuple(out)
+        if isinstance(e, ast.Subscript):
+            return ev(e.value)[ev(e.slice)]
+        if isinstance(e, ast.Call) and norm(e.func) in ("itemgetter", "operator.itemgetter"):
+            idx = []
+            for x in e.args:
+                idx.extend(ev(x.value) if isinstance(x, ast.Starred) else [ev(x)])
+            return ("itemgetter", tuple(idx))
+        if isinstance(e, ast.Call) and norm(e.func) in ("tuple", "list") and len(e.args) == 1:
+            return tuple(ev(e.args[0]))
+        if isinstance(e, ast.Call) and len(e.args) == 1 and not e.keywords:
+            f = ev(e.func)
+            if isinstance(f, tuple) and f and f[0] == "itemgetter":
+                v = ev(e.args[0])
+                return tuple(v[i] for i in f[1])
+        if isinstance(e, (ast.ListComp, ast.GeneratorExp)) and len(e.generators) == 1 and not e.generators[0].ifs \
+                and isinstance(e.generators[0].target, ast.Name):
+            out = []
+            for x in ev(e.generators[0].iter):
+                env[e.generators[0].target.id] = x
+                out.append(ev(e.elt))
+            return tuple(out)
+        raise ValueError(norm(e))
+    try:
+        for st in body_without_docstring(fn):
+            if isinstance(st, ast.Assign) and len(st.targets) == 1:
+                v = ev(st.value)
+                t = st.targets[0]
+                if isinstance(t, ast.Name):
+                    env[t.id] = v
+                elif isinstance(t, (ast.Tuple, ast.List)) and all(isinstance(x, ast.Name) for x in t.elts) and len(t.elts) == len(v):
+                    for x, vv in zip(t.elts, v):
+                        env[x.id] = vv
+                else:
+                    return None
+            elif isinstance(st, ast.Return) and st.value is not None:
+                return ev(st.value)
+            elif isinstance(st, (ast.Assert, ast.Pass)):
+                continue
+            else:
+                return None
+    except (ValueError, IndexError, TypeError, KeyError):
+        return None
+    return None
+
+
 def check_permutation(prog: Program, rep: Report) -> None:
     mi = prog.modules.get("jellyfysh.base.vectors")
     if mi is None:
         raise AnalysisError("base/vectors.py not found")
-    table = mi.assigns.get("_permutations_3d")
-    loc = Loc(mi.file, getattr(table, "lineno", 0), "_permutations_3d")
-    rows = []
-    if isinstance(table, ast.List):
-        for e in table.elts:
-            idx = [n.value for n in ast.walk(e) if isinstance(n, ast.Constant) and isinstance(n.value, int)]
-            rows.append(idx)
-    for d, row in enumerate(rows):
-        ok = len(row) == 3 and sorted(row) == [0, 1, 2] and row[0] == d
-        cyclic = ok and row == [d, (d + 1) % 3, (d + 2) % 3]
-        rep.ob("R3.3-permutation-table", ok and cyclic, loc, f"direction {d} -> {row}",
-               "row d of the axis permutation must be the cyclic permutation of (0,1,2) that starts with d: the C routines "
-               "differentiate along their first argument, and a non-cyclic order would mirror the other two axes")
-    rep.ob("R3.3-permutation-rows", len(rows) == 3, loc, f"{len(rows)} rows", "one permutation per direction")
     fn = mi.functions.get("permutation_3d")
-    ok = fn is not None and any(isinstance(n, ast.Return) and norm(n.value) == f"_permutations_3d[{param_names(fn, False)[1]}]({param_names(fn, False)[0]})"
-                                for n in ast.walk(fn))
-    rep.ob("R3.3-permutation-lookup", ok, Loc(mi.file, fn.lineno if fn else 0, "permutation_3d"), "table[main_direction](vector)",
-           "the permutation must be looked up by the direction of motion and applied to the separation")
+    if fn is None:
+        raise AnalysisError("permutation_3d not found")
+    loc = Loc(mi.file, fn.lineno, "permutation_3d")
+    rows = 0
+    for d in range(3):
+        got = _eval_perm(fn, mi.assigns, d)
+        want = tuple(f"v{(d + k) % 3}" for k in range(3))
+        if got is not None:
+            rows += 1
+        rep.ob("R3.3-permutation-table", None if got is None else tuple(got) == want, loc, f"direction {d} -> {got}",
+               "for direction d the axis permutation must deliver (v[d], v[d+1], v[d+2]) cyclically: the C routines "
+               "differentiate along their first argument, and a non-cyclic order would mirror the other two axes"
+               if got is not None else "permutation helper not interpreted")
+    rep.ob("R3.3-permutation-rows", rows == 3, loc, f"{rows} directions evaluated", "one permutation per direction")
     # callers of the C x-derivative / displacement pass the permuted separation for the same direction
-    n = 0
     for m2, ci, f2 in prog.functions():
         for c in ast.walk(f2):
             if isinstance(c, ast.Call) and norm(c.func) in ("_lib_derivative", "_lib_displacement", "lib.derivative", "lib.displacement"):
-                n += 1
-                stars = [a for a in c.args if isinstance(a, ast.Starred)]
                 ps = param_names(f2)
                 dir_param = ps[0] if ps else "direction"
+
+                def is_perm_call(v: ast.AST) -> bool:
+                    return isinstance(v, ast.Call) and norm(v.func).endswith("permutation_3d") and len(v.args) == 2 \
+                        and norm(v.args[1]) == dir_param and "separation" in norm(v.args[0])
                 ok = False
+                stars = [a for a in c.args if isinstance(a, ast.Starred)]
                 if len(stars) == 1:
                     v = stars[0].value
-                    if isinstance(v, ast.Call) and norm(v.func).endswith("permutation_3d"):
-                        ok = len(v.args) == 2 and norm(v.args[1]) == dir_param and "separation" in norm(v.args[0])
+                    if is_perm_call(v):
+                        ok = True
                     elif isinstance(v, ast.Name):
-                        d = [a for a in ast.walk(f2) if isinstance(a, ast.Assign) and norm(a.targets[0]) == v.id]
-                        ok = len(d) == 1 and isinstance(d[0].value, ast.Call) and norm(d[0].value.func).endswith("permutation_3d") \
-                            and norm(d[0].value.args[1]) == dir_param
+                        d_ = [a for a in ast.walk(f2) if isinstance(a, ast.Assign) and norm(a.targets[0]) == v.id]
+                        ok = len(d_) == 1 and is_perm_call(d_[0].value)
+                elif not stars:
+                    # the three components unpacked from one permutation call and passed on in the same order
+                    for a in ast.walk(f2):
+                        if isinstance(a, ast.Assign) and isinstance(a.targets[0], (ast.Tuple, ast.List)) and len(a.targets[0].elts) == 3 \
+                                and is_perm_call(a.value):
+                            names = [norm(x) for x in a.targets[0].elts]
+                            passed = [norm(x) for x in c.args]
+                            ok = any(passed[i:i + 3] == names for i in range(len(passed) - 2))
                 rep.ob("R3.3-c-call-permuted", ok, Loc(m2.file, c.lineno, f"{ci.name + '.' if ci else ''}{f2.name}"), c,
                        "the C routine works along x: it must receive the separation permuted for this method's direction")
     rep.expect_min("R3.3-c-call-permuted", 3)
@@ -242,11 +321,25 @@ def check_velocity_analysis(prog: Program, rep: Report) -> None:
     if fn is not None:
         v = param_names(fn)[0]
         rets = [r for r in ast.walk(fn) if isinstance(r, ast.Return)]
+        RV = Resolver(fn)
         ok = len(rets) == 1 and isinstance(rets[0].value, ast.Tuple) and len(rets[0].value.elts) == 2 \
-            and norm(rets[0].value.elts[1]) == f"{v}[{norm(rets[0].value.elts[0])}]"
+            and RV.text(rets[0].value.elts[1]) == f"{v}[{RV.text(rets[0].value.elts[0])}]"
     rep.ob("R3.5-velocity-analysis", ok, loc, "returns (axis, velocity[axis])", "the speed must be the component of the velocity along the axis found")
-    ok = d is not None and any(isinstance(r, ast.Return) and isinstance(r.value, ast.BinOp) and isinstance(r.value.op, ast.Mult)
-                               and "standard_velocity_derivative(direction_of_motion" in norm(r.value) for r in ast.walk(d))
+    ok = False
+    if d is not None:
+        R = Resolver(d)
+        unpack = [a for a in ast.walk(d) if isinstance(a, ast.Assign) and isinstance(a.targets[0], (ast.Tuple, ast.List)) and len(a.targets[0].elts) == 2
+                  and isinstance(a.value, ast.Call) and norm(a.value.func).endswith("_analyse_velocity")]
+        if len(unpack) == 1:
+            axis, speed = (norm(x) for x in unpack[0].targets[0].elts)
+            for r in ast.walk(d):
+                if isinstance(r, ast.Return) and r.value is not None:
+                    v = R.res(r.value)
+                    if isinstance(v, ast.BinOp) and isinstance(v.op, ast.Mult):
+                        for call, other in ((v.left, v.right), (v.right, v.left)):
+                            if isinstance(call, ast.Call) and norm(call.func).endswith("standard_velocity_derivative") and call.args \
+                                    and norm(call.args[0]) == axis and norm(other) == speed:
+                                ok = True
     rep.ob("R3.5-derivative-is-space-derivative-times-speed", ok, Loc(c.file, d.lineno if d else 0, "StandardVelocityPotential.derivative"),
            "standard_velocity_derivative(axis, ...) * speed", "the rate must be the space derivative along the axis of motion times the speed")
 
